@@ -31,6 +31,7 @@ def check(run, repo, tier):
   r2_reject(run, w, tc)
   r3_tags(run, w, tc)
   r4_leaves(run, w, tc)
+  r5_dollar(run, w)
 
 
 def _visitors(tc):
@@ -288,6 +289,63 @@ def r4_leaves(run, w, tc):
          "unsupported input is reported as SyntaxError", ok, fi=ppf.fi)
 
 
+ANCHORED = {"match", "fullmatch"}
+FORWARD = {"search", "finditer", "findall", "sub", "subn", "split"}
+
+
+def r5_dollar(run, w):
+  """The `$x` -> `rec.x` preprocessing that parse_predicate_formula runs before ast.parse."""
+  R5 = run.rule("C40-R5", "the `$` -> `rec.` preprocessing patches only the `$` found AT the "
+                "mapped-back position of a DOLLAR-prefixed Name: the match whose bounds become the "
+                "patch is anchored there (a forward search would also rewrite a `$` inside a later "
+                "string, comment or reference when the Name is a genuine DOLLAR... identifier)",
+                floor=1)
+  ppf = w.repo.func("predicate_formula.parse_predicate_formula")
+  callees = [c for c in calls_in(ppf.node) if (dotted(c.func) or "").split(".")[-1].endswith("dollar_replacer")]
+  need(callees, "the call of the dollar replacer", ppf)
+  name = dotted(callees[0].func).split(".")[-1]
+  fi = None
+  for mod in ("codebuilder", "predicate_formula"):
+    try:
+      fi = w.repo.func("%s.%s" % (mod, name))
+      break
+    except Exception:        # pylint: disable=broad-except
+      continue
+  need(fi, "the definition of %s" % name, ppf)
+  # patches whose bounds come from a match object:  make_patch(text, m.start(..), m.end(..), 'rec.')
+  sites = []
+  for c in calls_in(fi.node):
+    if not (dotted(c.func) or "").endswith("make_patch") or len(c.args) < 3:
+      continue
+    ms = {text(a.func.value) for a in c.args[1:3]
+          if isinstance(a, ast.Call) and isinstance(a.func, ast.Attribute) and
+          a.func.attr in ("start", "end", "span") and isinstance(a.func.value, ast.Name)}
+    if len(ms) == 1:
+      sites.append((c, ms.pop()))
+  need(sites, "a patch whose bounds are taken from a regular-expression match", fi)
+  n = 0
+  for c, m in sites:
+    defs = [s.value for s in ast.walk(fi.node) if isinstance(s, ast.Assign) and
+            any(isinstance(t, ast.Name) and t.id == m for t in s.targets)]
+    defs += [s.value for s in ast.walk(fi.node) if isinstance(s, ast.NamedExpr) and s.target.id == m]
+    calls = [d for d in defs if isinstance(d, ast.Call) and isinstance(d.func, ast.Attribute)]
+    if not calls or len(calls) != len(defs):
+      need(None, "the call that produces the match object `%s`" % m, fi)
+    for d in calls:
+      meth = d.func.attr
+      if meth not in ANCHORED and meth not in FORWARD:
+        need(None, "an anchored or forward regex method in `%s`" % short(d, 60), fi)
+      positional = len(d.args) >= 2 or any(k.arg == "pos" for k in d.keywords)
+      if meth in ANCHORED and not positional:
+        need(None, "the position argument of `%s`" % short(d, 60), fi)
+      run.ob(R5, fi.qualname, "%s = %s" % (m, short(d, 70)),
+             "the match that bounds the `rec.` patch is anchored at the mapped-back position "
+             "of the Name (re match/fullmatch with a position), not searched forward from it",
+             meth in ANCHORED, fi=fi, node=d)
+      n += 1
+  return n
+
+
 def _leaves(e, r, nid, seen=None, depth=0):
   """[(leaf expression, id of the CFG node where it is evaluated)] of a returned tree expression
   (not the recursive self.visit results). Locals are followed through the definitions that reach
@@ -387,7 +445,17 @@ def _any_none_arg(r, a, node, p):
 
 
 P = "sandbox/grist/predicate_formula.py"
+CB = "sandbox/grist/codebuilder.py"
 VARIANTS = [
+  ("dollar-replacer-searches-forward", CB, """      input_pos = tmp_formula.map_back_offset(startpos)
+      m = DOLLAR_REGEX.match(formula, input_pos)
+      if m:
+        patches.append(textbuilder.make_patch(formula, m.start(0), m.end(0), 'rec.'))
+  final_formula""", """      input_pos = tmp_formula.map_back_offset(startpos)
+      m = DOLLAR_REGEX.search(formula, input_pos)
+      if m:
+        patches.append(textbuilder.make_patch(formula, m.start(0), m.end(0), 'rec.'))
+  final_formula""", "C40-R5"),
   ("constant-unguarded", P, """    if not isinstance(node.value, (str, int, float, bool, type(None))):
       return self.generic_visit(node)
 """, "", "C40-R4"),
